@@ -160,17 +160,21 @@ structure ErrObj where
 def ErrObj.new (code : Int) (message : String) : ErrObj :=
   { code := code, message := message, hasData := false }
 
-/-- `Response` as serialised: `result` / `error` are skipped when `None`, `id` always present. -/
+/-- `Response` as serialised: `jsonrpc` (the `&'static str` member, always written), `result` /
+`error` are skipped when `None`, `id` always present. -/
 structure Response where
+  jsonrpc : String
   result : Option Json
   error : Option ErrObj
   id : Json
 
+/-- `Response::ok`: `jsonrpc: JSONRPC_VERSION`. -/
 def Response.ok (id : Json) (result : Json) : Response :=
-  { result := some result, error := none, id := id }
+  { jsonrpc := Control.JSONRPC_VERSION, result := some result, error := none, id := id }
 
+/-- `Response::err`: `jsonrpc: JSONRPC_VERSION`. -/
 def Response.err (id : Json) (e : ErrObj) : Response :=
-  { result := none, error := some e, id := id }
+  { jsonrpc := Control.JSONRPC_VERSION, result := none, error := some e, id := id }
 
 /-- What the dispatcher is handed besides the config. -/
 structure Env where
